@@ -132,6 +132,14 @@ CLAIMED = {
           'under the dynamic router) followed by two quiescence epilogues (all up / lost destinations stay down); receivers incl. '
           'one connected while paused must be resumed.',
           'Liveness restated as a check at quiescence; C09-d (unsynchronised event dispatch vs. disconnect) is a known finding.', 'DESIGN.md 3/C09'),
+  'C08': ('exploration', 'shadow model per (aggregate, interval) with an independent pattern matcher, on a virtual clock through the real pipeline',
+          'The real aggregator pipeline (rewrite:pre, aggregate, rewrite:post, relay sink) runs with LoopingCalls on a virtual clock; '
+          'all event sequences up to length L over an 8-event alphabet (arrive in-order / late / far-past / self-named, advance) and '
+          'random streams over generated rule sets (all 12 methods, <field>, <<field>>, *) are executed for MAX_AGGREGATION_INTERVALS '
+          '1/2/5 x WRITE_BACK_FREQUENCY None/1/7 x name cache off/LRU/TTL x FORWARD_ALL; every emission is checked for alignment, '
+          'new input and value (f over all values within the horizon, over a suffix containing the new ones after a permissible '
+          'expiry); buffered intervals <= MAX+2 after flushes; idle series released; pass-through exactly once / never.',
+          'Expiry over-approximated in favour of the code; two rules never share an aggregate name.', 'DESIGN.md 3/C08'),
 }
 
 NOT_YET = 'check not built yet (work in progress; see DESIGN.md)'
